@@ -79,6 +79,7 @@ pub fn hl_sets(b: &Bounds) -> Vec<HlSet> {
                 4 => ("F4", fam4(l)),
                 5 => ("F5", fam5(l)),
                 7 => ("F7", fam7(l)),
+                8 => ("F8", fam8(l)),
                 _ => ("F6", fam6(l)),
             };
             // larger alphabets get one character less so that every family costs about the same
